@@ -343,6 +343,11 @@ def run_syscall_point(spec):
     db, idx = store.standard_template()
     cal = calibration(spec["label"])
     dbp, d, info = crash.syscall_run(db, None, _send_fn(cal["var"]), (spec["syscall"], spec["k"]))
+    for _ in range(2):          # a tracer that did not attach in time (loaded machine): once more
+        if info["attached"]:
+            break
+        shutil.rmtree(d, ignore_errors=True)
+        dbp, d, info = crash.syscall_run(db, None, _send_fn(cal["var"]), (spec["syscall"], spec["k"]))
     try:
         if info["ack"] and "child_error" in (info["ack"] or {}):
             raise core.HarnessError("child failed: %r" % (info["ack"],))
@@ -428,6 +433,11 @@ def run_startup_point(spec):
     cal = startup_calibration()
     if spec.get("syscall"):
         dbp, d, info = crash.startup_run(None, _startup_send, inject=(spec["syscall"], spec["k"]))
+        for _ in range(2):      # a tracer that did not attach in time (loaded machine): once more
+            if info["attached"]:
+                break
+            shutil.rmtree(d, ignore_errors=True)
+            dbp, d, info = crash.startup_run(None, _startup_send, inject=(spec["syscall"], spec["k"]))
     else:
         dbp, d, info = crash.startup_run(None, _startup_send, die_at=spec["k"])
     try:
